@@ -1039,7 +1039,7 @@ var basicObjects = []*ObjectSchema{
 			),
 			"multipliers": NewPropertySchema(
 				NewMapSchema(
-					NewIntSchema(nil, nil, nil),
+					NewIntSchema(PointerTo[int64](1), nil, nil),
 					NewRefSchema("Unit", nil),
 					nil,
 					nil,
